@@ -13,11 +13,17 @@ EXTENDS MC_Hub, Hub2
 VARIABLE kx      \* the contract: [blk, vsn, evn, set, lbn, cust, thr]
 evars == <<hub, xw, g, hist, bad, pick, cnt, kx>>
 
+\* scripts/cfg_evm.json: a batch lives 60 external blocks (the simulated chain mines a block per transaction)
+EvmCfg == [DefaultCfg EXCEPT !.target_ms = 1200000]
+
 C == "ethereum"
 Thr == <<43690, 43690>>          \* 2863311530 = two thirds of 2^32
 
+\* the constructor's ValsetUpdatedEvent (valset nonce 0, event nonce 1) is the first event validators report
+Ev0 == [t |-> "SSExec", n |-> 1, ssn |-> 0, eh |-> 4, m |-> SortedMembers(Cfg(InitHub), CurrentSigners(InitHub, C)), txh |-> "x0"]
 InitEvm ==
-    /\ Init
+    /\ hub = InitHub /\ g = GhostInit(InitHub) /\ hist = <<>> /\ bad = {} /\ pick = "" /\ cnt = 0
+    /\ xw = [InitExt EXCEPT ![C].log = <<Ev0>>, ![C].h = 4]
     /\ kx = [blk |-> 4, vsn |-> 0, evn |-> 1, thr |-> Thr, lbn |-> <<>>, cust |-> <<>>,
              set |-> [n |-> 0, m |-> SortedMembers(Cfg(InitHub), CurrentSigners(InitHub, C))]]
 
@@ -85,20 +91,46 @@ AttestRef ==
              /\ cnt' = cnt + 3 /\ g' = g /\ bad' = {}
     /\ xw' = XwObserve(xw, hub') /\ UNCHANGED kx
 
+\* every bonded validator with a key confirms one stored outgoing tx it has not confirmed yet
+ConfirmAll ==
+    /\ hub.inb
+    /\ \E tx \in TxRefs(C) :
+         LET vs == {v \in BondedWithKey(hub, C) : ~Has(SigsOf(hub, C, tx), v)} IN
+         /\ TxExists(hub, C, tx) /\ vs # {}
+         /\ DoSeq([i \in 1..Cardinality(vs) |->
+                     LET v == SetToSeq(vs)[i] IN
+                     [k |-> "Confirm", i |-> 0, by |-> v, chain |-> C, tx |-> tx, ext |-> hub.ch[C].ve[v], key |-> hub.ch[C].ve[v]]])
+    /\ xw' = XwObserve(xw, hub')
+
 HubKind(A) == A /\ UNCHANGED kx
 
-EvmKinds == {"Begin", "NextBlock", "ConfirmGood", "StakeChange", "SendBatch", "EvmDeposit", "EvmUpdateValset", "EvmSubmitBatch", "EvmMine", "AttestRef"}
+EvmKinds == {"Begin", "NextBlock", "ConfirmGood", "ConfirmAll", "StakeChange", "SendBatch", "EvmDeposit", "EvmUpdateValset", "EvmSubmitBatch", "EvmMine", "AttestRef"}
 EvmAction(kind) ==
     CASE kind = "EvmDeposit" -> EvmDeposit [] kind = "EvmUpdateValset" -> EvmUpdateValset [] kind = "EvmSubmitBatch" -> EvmSubmitBatch
-      [] kind = "EvmMine" -> EvmMine [] kind = "AttestRef" -> AttestRef
+      [] kind = "EvmMine" -> EvmMine [] kind = "AttestRef" -> AttestRef [] kind = "ConfirmAll" -> HubKind(ConfirmAll)
       [] OTHER -> HubKind(ActionOf(kind))
 
 NextEvm ==
     /\ cnt < MaxLen
-    /\ IF pick = ""
+    /\ IF ~TwoLevel THEN (\E kind \in EvmKinds : EvmAction(kind)) /\ pick' = ""
+       ELSE IF pick = ""
        THEN /\ \E kind \in EvmKinds : ENABLED EvmAction(kind) /\ pick' = kind
             /\ UNCHANGED <<hub, xw, g, hist, bad, cnt, kx>>
        ELSE EvmAction(pick) /\ pick' = ""
 
 SpecEvm == InitEvm /\ [][NextEvm]_evars
+ViewEvm == <<hub, xw, g, bad, kx>>
+
+\* design-level invariants of the combined system
+\* the hub never runs ahead of the contract
+InStepInv ==
+    /\ hub.ch[C].lon <= kx.evn
+    /\ hub.ch[C].loss # <<>> => hub.ch[C].loss.n <= kx.vsn
+    /\ (hub.ch[C].lon = kx.evn /\ hub.ch[C].loss # <<>>) => (hub.ch[C].loss.n = kx.vsn /\ hub.ch[C].loss.m = kx.set.m)
+\* the model's external log is the contract's event sequence
+LogInv == Len(xw[C].log) = kx.evn /\ \A i \in DOMAIN xw[C].log : xw[C].log[i].n = i
+\* a batch the hub withdrew can never be executed by the contract afterwards
+WithdrawnNeverExecutable == \A b \in xw[C].pub : <<b.tok, b.n>> \in g.wd[C] => ~ContractAccepts([xw EXCEPT ![C].h = kx.blk], C, b) \/ b.n <= Get(kx.lbn, b.tok, 0)
+\* solvency against the contract's custody
+SolvencyEvm == Solvent(hub, [xw EXCEPT ![C].cust = [t \in DOMAIN @ |-> Get(kx.cust, t, 0)]])
 =============================================================================
